@@ -755,6 +755,31 @@ class C03Monitor(X.Monitor):
                 elif not beats:
                     ctx.violate("C03", "tp_is_justified", "TP whose pass/fail score does not beat the threshold of its GT label",
                                 {"score": val, "threshold": thr, "gt_label": V.label_of(g)}, st.index)
+        # --- an FP-labelled ground truth is a *matched* FP exactly when its estimate beats the threshold of that label ----
+        if pf_thr is not None and "false_positive" in pf_labels:
+            t_fp = pf_thr[pf_labels.index("false_positive")]
+            tn_ids = set(_ids(tn))
+            matched_fp_ids = set(id(r.ground_truth_object) for r in fp if r.ground_truth_object is not None)
+            for r in results:
+                g = r.ground_truth_object
+                if g is None or V.label_of(g) != "false_positive":
+                    continue
+                if V.is_2d(g):
+                    val = ref.roi_iou(V.roi_of(r.estimated_object), V.roi_of(g))
+                    beats = val > t_fp
+                else:
+                    val = r.plane_distance.value
+                    beats = val is not None and val < t_fp
+                if val is None or ref.near(val, t_fp):
+                    ctx.skip("boundary_skipped")
+                    continue
+                ctx.probe("c03_fp_gt_pairs_judged")
+                if beats and id(g) not in matched_fp_ids:
+                    ctx.violate("C03", "matched_fp_is_matching", "an FP-labelled ground truth whose estimate beats the threshold of the false_positive label is not reported as a matched FP",
+                                {"score": val, "threshold": t_fp, "in_tn": id(g) in tn_ids}, st.index)
+                elif (not beats) and id(g) not in tn_ids:
+                    ctx.violate("C03", "matched_fp_is_matching", "an FP-labelled ground truth whose estimate does not beat the threshold of the false_positive label is not a TN",
+                                {"score": val, "threshold": t_fp, "matched_fp": id(g) in matched_fp_ids}, st.index)
         # --- region ---------------------------------------------------------------------------------
         params = V.plan_filter_params(ctx.plan["config"], st.crit_spec)   # the critical region as the plan configured it
         for kind, seq in (("TP", tp), ("FP", fp)):
